@@ -797,9 +797,9 @@ class Poly:
 
     def subs(self, sid_, repl, cache=None):
         """substitute symbol `sid_` (positive integer powers) by the Poly `repl`"""
-        out = None
-        same = {}
+        res = {}
         pw = cache if cache is not None else {}
+        hit = False
         for m, c in self.t.items():
             e = 0
             for s_, e_ in m:
@@ -807,8 +807,17 @@ class Poly:
                     e = e_
                     break
             if not e:
-                same[m] = c
+                v = res.get(m)
+                if v is None:
+                    res[m] = c
+                else:
+                    v = v + c
+                    if v:
+                        res[m] = v
+                    else:
+                        del res[m]
                 continue
+            hit = True
             if not isinstance(e, int) or e < 0:
                 raise Unsupported("substitution into a negative / fractional power")
             rest = tuple(x for x in m if x[0] != sid_)
@@ -816,10 +825,23 @@ class Poly:
             if rp is None:
                 rp = repl ** e
                 pw[e] = rp
-            term = rp * Poly({rest: c})
-            out = term if out is None else out + term
-        base = Poly(same)
-        return base if out is None else base + out
+            for m2, c2 in rp.t.items():
+                k, mm = _mmul(m2, rest)
+                cc = c * c2
+                if k != 1:
+                    cc = cc * k
+                v = res.get(mm)
+                if v is None:
+                    res[mm] = cc
+                else:
+                    v = v + cc
+                    if v:
+                        res[mm] = v
+                    else:
+                        del res[mm]
+        if not hit:
+            return self
+        return Poly(res)
 
     # evaluation at a numeric point: env maps symbol id -> complex/float
     def evaluate(self, env):
